@@ -261,6 +261,12 @@ def decode_value(r: _R, sig: bytes, depth: int):
             raise Invalid(reason)
         return (sig, s)
     if depth + 1 > 64:
+        if c == ord('a'):
+            # an EMPTY array nested deeper than 64 holds no value at that depth: whether the
+            # "total message depth" rule applies is not stated -> unspecified, not judged
+            n0 = r.u32()
+            if n0 == 0:
+                raise Invalid('gray.empty-array-beyond-depth-64')
         raise Invalid('nesting.too-deep')
     if c == ord('v'):
         s = _decode_sigstr(r)
@@ -375,6 +381,9 @@ def decode_message(data: bytes, fds_available: int = 0, exact=True) -> Msg:
         if code > 10:
             continue
         if vs != FIELD_TYPE[code]:
+            if code == F_CONTAINER_INSTANCE:
+                # field 10 is defined by dbus-protocol.h but not by the specification text
+                raise Invalid('gray.field10-type')
             raise Invalid('header.field-wrong-type')
         if code in seen:
             raise Invalid('header.field-twice')
@@ -392,10 +401,10 @@ def decode_message(data: bytes, fds_available: int = 0, exact=True) -> Msg:
                 raise Invalid('header.bad-error-name')
         elif code == F_DESTINATION:
             if not G.valid_bus_name(vp):
-                raise Invalid('header.bad-destination')
+                raise Invalid('header.bad-destination:' + str(G.why_invalid('bus', vp)))
         elif code == F_SENDER:
             if not G.valid_bus_name(vp):
-                raise Invalid('header.bad-sender')
+                raise Invalid('header.bad-sender:' + str(G.why_invalid('bus', vp)))
         elif code == F_PATH:
             if vp == LOCAL_PATH:
                 raise Invalid('header.local-path')
@@ -431,6 +440,23 @@ def try_decode(data: bytes, fds_available=0, exact=True):
         return ('invalid', x.reason)
     except Incomplete:
         return ('incomplete', None)
+
+
+def judged_decode(data: bytes, fds_available=0, exact=True):
+    """try_decode under both readings of the dict-entry nesting rule;
+    -> ('gray', why) when the specification does not decide the input."""
+    G.STRICT = True
+    try:
+        a = try_decode(data, fds_available, exact)
+        G.STRICT = False
+        b = try_decode(data, fds_available, exact)
+    finally:
+        G.STRICT = True
+    if a[0] == 'invalid' and a[1].startswith('gray.'):
+        return ('gray', a[1])
+    if a[0] != b[0]:
+        return ('gray', 'dict-entry-depth-reading')
+    return a
 
 
 def split_stream(data: bytes, fds_available=0):
